@@ -2613,6 +2613,12 @@ stoAuditAll(void)
 	stoAuditHeapLocation();
 	stoAuditMapPages();
 
+	if (!stoMustTag) {
+		/* Tags are not kept (StoCtl_GcLevel_Never): only the checks that do not read them. */
+		(void) stoAuditMixedSizePieces();
+		return;
+	}
+
 	a1 = stoAuditFixedSizeSections();
 	a2 = stoAuditFixedSizePieces();
 	for (i = 0; i < FixedSizeCount; i++) assert(a1[i] == a2[i]);
